@@ -540,8 +540,8 @@ func checkCiphertextFieldSlots(c *Ctx, rule string) {
 // checkPublicClassPlaintext: the public crypto key is available while the manager is locked (and its
 // passphrase is the well-known public one by default), so what it seals is only as secret as the public
 // passphrase. An extended key whose serialisation is sealed under the public class must therefore be a
-// neutered key: the result of Neuter(), or a parameter of an exported entry point (API contract), or a
-// parameter of an internal function all of whose callers pass such a key.
+// neutered key: the result of Neuter(), or a parameter that the receiving function itself tests with IsPrivate()
+// (rejecting or neutering a private key), or a parameter of a function all of whose callers pass such a key.
 func checkPublicClassPlaintext(c *Ctx, rule string) {
 	p := c.P
 	var keyIsPublic func(k ssa.Value, depth int, seen map[ssa.Value]bool) []string
@@ -564,12 +564,22 @@ func checkPublicClassPlaintext(c *Ctx, rule string) {
 				bad = append(bad, describeValue(o))
 			case *ssa.Parameter:
 				fn := x.Parent()
-				if fn.Parent() == nil && token.IsExported(fn.Name()) {
+				// the function itself tests the key it was given for privacy (and rejects or neuters it)
+				tested := false
+				for _, ci := range callsOf(fn) {
+					if calleeShort(ci.Common()) == "IsPrivate" && len(ci.Common().Args) > 0 && stripConv(ci.Common().Args[0]) == ssa.Value(x) {
+						tested = true
+					}
+				}
+				if tested {
 					continue
 				}
 				idx := paramIndex(fn, x)
 				sites := p.callers(fn)
-				if len(sites) == 0 {
+				if fn.Parent() == nil && token.IsExported(fn.Name()) {
+					// an exported entry point that seals what it is given without looking at it
+					bad = append(bad, "parameter "+x.Name()+" of exported "+fnName(fn)+" (never tested with IsPrivate)")
+				} else if len(sites) == 0 {
 					bad = append(bad, "parameter "+x.Name()+" of "+fnName(fn)+" (no callers found)")
 				}
 				for _, cs := range sites {
@@ -735,4 +745,75 @@ func checkSelectedKeyUsedUnderLock(c *Ctx, rule string) {
 		}
 	}
 	c.Floor(rule, "uses of a selected crypto key", n, 2)
+}
+
+// checkPendingDerivationsHaveAccounts: addresses issued while locked are queued (deriveOnUnlock) and get their
+// private keys at the next Unlock from their account's private key. Unlock decrypts account keys only for
+// accounts in the cache, and a load during Unlock (still flagged locked) yields no private key. So either
+// (a) Unlock loads the accounts of all pending entries before the account-key decryption, or (b) nothing can
+// evict an account from the cache without also dropping its pending entries. Otherwise the derivation falls
+// back to the public key and the correct passphrase fails (or crashes) instead of unlocking.
+func checkPendingDerivationsHaveAccounts(c *Ctx, rule string) {
+	p := c.P
+	ul := p.Func("waddrmgr", "Manager", "Unlock")
+	load := p.Func("waddrmgr", "ScopedKeyManager", "loadAccountInfo")
+	if ul == nil || load == nil {
+		c.Unresolved(rule, "Manager.Unlock / ScopedKeyManager.loadAccountInfo")
+		return
+	}
+	reachesLoad := p.reachingCall(load)
+	var decs []*ssa.Call
+	for _, ci := range callsOf(ul) {
+		call, ok := ci.(*ssa.Call)
+		if !ok || calleeShort(&call.Call) != "Decrypt" || len(call.Call.Args) == 0 {
+			continue
+		}
+		if tn, f, _, okf := fieldOf(stripConv(call.Call.Args[len(call.Call.Args)-1])); okf && tn == "accountInfo" && f == "acctKeyEncrypted" {
+			decs = append(decs, call)
+		}
+	}
+	c.Floor(rule, "account-key decryptions in Unlock", len(decs), 1)
+	// (b) evictions
+	evictionsSafe := true
+	nEvict := 0
+	for _, fn := range p.FuncsIn("waddrmgr") {
+		for _, ci := range callsOf(fn) {
+			call, ok := ci.(*ssa.Call)
+			if !ok || calleeShort(&call.Call) != "delete" || len(call.Call.Args) == 0 {
+				continue
+			}
+			if tn, f, _, okf := fieldOf(stripConv(call.Call.Args[0])); !okf || tn != "ScopedKeyManager" || f != "acctInfo" {
+				continue
+			}
+			nEvict++
+			drops := false
+			for _, b := range fn.Blocks {
+				for _, ins := range b.Instrs {
+					if st, ok := ins.(*ssa.Store); ok {
+						if fa, ok := st.Addr.(*ssa.FieldAddr); ok {
+							if tn, f := fieldAddrName(fa); tn == "ScopedKeyManager" && f == "deriveOnUnlock" {
+								drops = true
+							}
+						}
+					}
+				}
+			}
+			if !drops {
+				evictionsSafe = false
+			}
+		}
+	}
+	for _, dec := range decs {
+		preloaded := false
+		for _, l := range loopsOf(ul) {
+			if l.Kind == "for" || !strings.Contains(l.Over, "deriveOnUnlock") || !l.containsInstr(reachesLoad) {
+				continue
+			}
+			if l.Header.Dominates(dec.Block()) && !l.Blocks[dec.Block()] {
+				preloaded = true
+			}
+		}
+		c.Check(rule, "pending-derivations-have-cached-accounts", dec.Pos(), preloaded || (evictionsSafe && nEvict > 0),
+			"Unlock decrypts the private keys of cached accounts only, but does not first load the accounts of the addresses queued for derive-on-unlock, and accounts can be evicted from the cache without dropping their queued addresses: the queued derivation then runs without a private account key and the correct passphrase fails (nil private key) instead of unlocking")
+	}
 }
